@@ -2,7 +2,10 @@
 
 package decoder
 
-import "io"
+import (
+	"io"
+	"unsafe"
+)
 
 // Verification hooks (build tag "verif").  They record the state of the stream window at the two
 // places where it is re-based: read() (refill, optional doubling) and reset().  Nothing is recorded
@@ -55,5 +58,38 @@ func verifStreamRead(s *Stream, pre verifStreamSnap, n int, err error) {
 func verifStreamReset(s *Stream, pre verifStreamSnap) {
 	if VerifStreamTracer != nil {
 		verifStreamEmit("reset", s, pre, 0, nil)
+	}
+}
+
+// ---- per-type decoder cache ----
+
+// VerifCacheEvent describes one return of CompileToGetDecoder.
+type VerifCacheEvent struct {
+	Side             string
+	Path             string
+	TypePtr          uintptr
+	ProgType         uintptr
+	Prog             uintptr
+	Index            uintptr
+	Base, Max, Shift uintptr
+}
+
+var (
+	VerifCacheTracer   func(VerifCacheEvent)
+	VerifCacheGateFunc func(side, point string, typeptr uintptr)
+)
+
+func verifCacheGate(point string, typeptr uintptr) {
+	if f := VerifCacheGateFunc; f != nil {
+		f("dec", point, typeptr)
+	}
+}
+
+func verifCacheReturn(path string, typeptr uintptr, index uintptr, d Decoder) {
+	if f := VerifCacheTracer; f != nil && d != nil {
+		// a Decoder is an interface holding a pointer: its data word identifies the decoder object
+		prog := (*[2]uintptr)(unsafe.Pointer(&d))[1]
+		f(VerifCacheEvent{Side: "dec", Path: path, TypePtr: typeptr, Prog: prog, Index: index,
+			Base: typeAddr.BaseTypeAddr, Max: typeAddr.MaxTypeAddr, Shift: typeAddr.AddrShift})
 	}
 }
